@@ -7,6 +7,7 @@ pub mod c01;
 pub mod c04;
 pub mod c06;
 pub mod c14;
+pub mod c15;
 pub mod c18;
 
 #[derive(Clone, Copy, Debug, PartialEq)]
@@ -75,6 +76,7 @@ pub fn lookup(id: &str) -> Option<Box<dyn Prop>> {
         "C05" => Some(Box::new(c01::C05)),
         "C06" => Some(Box::new(c06::C06)),
         "C14" => Some(Box::new(c14::C14)),
+        "C15" => Some(Box::new(c15::C15)),
         "C18" => Some(Box::new(c18::C18)),
         _ => None,
     }
